@@ -1,6 +1,6 @@
 """C20 (partial): R-SWAP on the link chain, LINK-ORDER, RELOC, T-LANE in link_function_mips, R-ERR1/2 on link paths."""
 from nk import report
-from rules import link, lane, err
+from rules import sym, link, lane, err
 from . import common
 
 EXPLANATION = (
@@ -26,5 +26,6 @@ def run(tier, t0):
     ln.obs = [o for o in ln.obs if o.function == 'link_function_mips' or o.file == 'core/imports_get_int.cpp']
     ln.floor = 4
     results = [link.swap(prog, scope, 20), link.link_order(prog), link.reloc(prog), ln,
+               sym.find_exhaustive(prog, lambda f: f.file in ('core/Linker.cpp', 'core/imports_ar.cpp', 'core/imports_obj.cpp'), 4),
                err.err1(prog, scope, table, floor=3), err.err2(prog, scope, table, floor=3)]
     return report.finish('C20', tier, results, EXPLANATION, [], common.TRUSTED, t0)
